@@ -15,4 +15,4 @@ globals().update(make(
     'process AND at least one maintenance shutdown with a part in process; distinct = SHA-1 of the canonical spec. A quarter of the models use ordinary decimal times (cycle 1.1, maintenance at 7.3, ...): there the same identities are demanded within 1e-9 (accumulated rounding) instead of exactly.',
     lambda mon, case: any(r.fail_with_part for r in mon.refs.values()) and any(r.maint_with_part for r in mon.refs.values()),
     lambda mon, case: (['work-order-started'] if mon.m.wo_started else []),
-    quick=(400, 4), thorough=(2000, 16), noisy_p=0.25))
+    quick=(1000, 4), thorough=(2500, 16), noisy_p=0.25))
